@@ -87,6 +87,50 @@ class ContentFilterTree(tree.Tree):
         """
         return self.backing_tree.is_executable(path)
 
+    def is_special_path(self, path):
+        """Check whether a path is special to the underlying tree's VCS.
+
+        Args:
+            path: Path to check.
+
+        Returns:
+            True if the backing tree considers the path special.
+        """
+        return self.backing_tree.is_special_path(path)
+
+    def is_versioned(self, path):
+        """Check whether a path is versioned in the backing tree.
+
+        Args:
+            path: Path to check.
+
+        Returns:
+            True if the path is versioned, False otherwise.
+        """
+        return self.backing_tree.is_versioned(path)
+
+    def get_file_mtime(self, path):
+        """Get the modification time of a file in the backing tree.
+
+        Args:
+            path: Path to the file.
+
+        Returns:
+            The modification time as seconds since the epoch.
+        """
+        return self.backing_tree.get_file_mtime(path)
+
+    def get_symlink_target(self, path):
+        """Get the target of a symlink in the backing tree.
+
+        Args:
+            path: Path to the symlink.
+
+        Returns:
+            The symlink target (content filters do not apply to symlinks).
+        """
+        return self.backing_tree.get_symlink_target(path)
+
     def iter_entries_by_dir(self, specific_files=None, recurse_nested=False):
         """Iterate over entries in the tree by directory.
 
